@@ -7,6 +7,12 @@ pub struct Rng {
     /// one case in sixteen draws half of its integers from the source-literal dictionary (G-dict),
     /// so that conditions on two or three fields at once are met
     heavy: bool,
+    /// the last integers and short octet strings this case drew: one draw in twelve repeats an
+    /// earlier one, so that two independently generated fields are equal far more often than
+    /// chance (2^-16 .. 2^-64) would make them
+    seen_ints: [u64; 4],
+    n_seen: usize,
+    seen_bytes: Vec<Vec<u8>>,
 }
 
 fn splitmix(x: &mut u64) -> u64 {
@@ -20,7 +26,7 @@ fn splitmix(x: &mut u64) -> u64 {
 impl Rng {
     pub fn new(seed: u64) -> Rng {
         let mut x = seed;
-        Rng { s: [splitmix(&mut x), splitmix(&mut x), splitmix(&mut x), splitmix(&mut x)], heavy: false }
+        Rng { s: [splitmix(&mut x), splitmix(&mut x), splitmix(&mut x), splitmix(&mut x)], heavy: false, seen_ints: [0; 4], n_seen: 0, seen_bytes: Vec::new() }
     }
     pub fn for_case(seed: u64, prop: u32, stream: u32, idx: u64) -> Rng {
         let mut x = seed ^ 0x5eed_0000_0000_0000;
@@ -32,6 +38,24 @@ impl Rng {
         let mut r = Rng::new(c);
         r.heavy = splitmix(&mut z) >> 60 == 0;
         r
+    }
+    fn remember(&mut self, v: u64) -> u64 {
+        self.seen_ints[self.n_seen % 4] = v;
+        self.n_seen += 1;
+        v
+    }
+    /// An integer drawn earlier in this case that fits `max`.
+    fn again(&mut self, max: u64) -> Option<u64> {
+        if self.n_seen == 0 || !self.chance(1, 12) {
+            return None;
+        }
+        let k = self.n_seen.min(4);
+        let v = self.seen_ints[self.below(k as u64) as usize];
+        if v <= max {
+            Some(v)
+        } else {
+            None
+        }
     }
     pub fn dict_heavy(&self) -> bool {
         self.heavy && !super::dict::get().ints.is_empty()
@@ -99,6 +123,18 @@ impl Rng {
         if n > 0 && self.dict_heavy() && self.chance(1, 4) {
             self.plant_literal(&mut v);
         }
+        if n > 0 && n <= 64 {
+            // short octet strings (random vectors, challenges, fixed-size values, secrets): repeat an
+            // earlier one of this case now and then, whole when the sizes agree, else as a prefix
+            if !self.seen_bytes.is_empty() && self.chance(1, 12) {
+                let i = self.below(self.seen_bytes.len() as u64) as usize;
+                let k = self.seen_bytes[i].len().min(n);
+                let src = self.seen_bytes[i][..k].to_vec();
+                v[..k].copy_from_slice(&src);
+            } else if self.seen_bytes.len() < 4 {
+                self.seen_bytes.push(v.clone());
+            }
+        }
         v
     }
     /// Overwrite a few octets (at the start, at the end or anywhere) with a source literal: a
@@ -142,10 +178,17 @@ impl Rng {
     }
     /// boundary-biased integers
     pub fn u16b(&mut self) -> u16 {
-        const B: [u16; 12] = [0, 1, 2, 0x7f, 0x80, 0xff, 0x100, 0x3ff, 0x7fff, 0x8000, 0xfffe, 0xffff];
-        if let Some(v) = self.dict_int(0xffff) {
+        if let Some(v) = self.again(0xffff) {
             return v as u16;
         }
+        if let Some(v) = self.dict_int(0xffff) {
+            return self.remember(v) as u16;
+        }
+        let v = self.u16b_plain();
+        self.remember(v as u64) as u16
+    }
+    fn u16b_plain(&mut self) -> u16 {
+        const B: [u16; 12] = [0, 1, 2, 0x7f, 0x80, 0xff, 0x100, 0x3ff, 0x7fff, 0x8000, 0xfffe, 0xffff];
         if self.chance(1, 2) {
             *self.pick(&B)
         } else {
@@ -153,10 +196,17 @@ impl Rng {
         }
     }
     pub fn u32b(&mut self) -> u32 {
-        const B: [u32; 12] = [0, 1, 0x40, 0x80, 0xc0, 0xff, 0xffff, 0x10000, 0x7fffffff, 0x80000000, 0xfffffffe, 0xffffffff];
-        if let Some(v) = self.dict_int(0xffff_ffff) {
+        if let Some(v) = self.again(0xffff_ffff) {
             return v as u32;
         }
+        if let Some(v) = self.dict_int(0xffff_ffff) {
+            return self.remember(v) as u32;
+        }
+        let v = self.u32b_plain();
+        self.remember(v as u64) as u32
+    }
+    fn u32b_plain(&mut self) -> u32 {
+        const B: [u32; 12] = [0, 1, 0x40, 0x80, 0xc0, 0xff, 0xffff, 0x10000, 0x7fffffff, 0x80000000, 0xfffffffe, 0xffffffff];
         if self.chance(1, 2) {
             *self.pick(&B)
         } else {
@@ -164,10 +214,17 @@ impl Rng {
         }
     }
     pub fn u64b(&mut self) -> u64 {
-        const B: [u64; 8] = [0, 1, 0xff, 0xffffffff, 0x100000000, 0x7fffffffffffffff, 0x8000000000000000, u64::MAX];
-        if let Some(v) = self.dict_int(u64::MAX) {
+        if let Some(v) = self.again(u64::MAX) {
             return v;
         }
+        if let Some(v) = self.dict_int(u64::MAX) {
+            return self.remember(v);
+        }
+        let v = self.u64b_plain();
+        self.remember(v)
+    }
+    fn u64b_plain(&mut self) -> u64 {
+        const B: [u64; 8] = [0, 1, 0xff, 0xffffffff, 0x100000000, 0x7fffffffffffffff, 0x8000000000000000, u64::MAX];
         if self.chance(1, 2) {
             *self.pick(&B)
         } else {
